@@ -58,7 +58,7 @@ def run(run, P):
                 return ('mixed', r1, r2)
             return r1 or r2
         if k == 'cond':
-            r1, r2 = role(e.get('t'), fn), role(e.get('f'), fn)
+            r1, r2 = role(e.get('x'), fn), role(e.get('y'), fn)
             return r1 if r1 == r2 else None
         return None
     # fixed point over parameter and local roles
